@@ -2487,3 +2487,213 @@ func c08r24(rc *core.RC) {
 		rc.Unknown("encoder/PtrCode-depth", token.NoPos, "found %d stores of the chain depth into PtrNum (confirmed: 2)", n)
 	}
 }
+
+// ---- C08.R25 only the heads of embedded structs are stepped over when member chains are linked ----
+
+// When the compiler links the member chain of a struct (NextField, the link an omitted member follows) it has to find
+// the first real member behind the head operations of embedded structs. Those heads carry AnonymousKeyFlags. A first
+// member that holds a struct under its own name has the same operation (OpStructHead) and no such flag: stepping over
+// it as well leads into the inner struct, the chain of the inner struct is linked instead, and the omitted member of
+// the outer one is left with a nil link (json.Marshal(struct{ E }{}) with E struct{ In Inner; B []int `omitempty` }
+// dereferenced it). Obligation: every loop of code.go that advances an opcode variable along Next while its operation
+// is OpStructHead/OpStructField also tests AnonymousKeyFlags in its condition.
+func c08r25(rc *core.RC) {
+	p := rc.P
+	pk := p.Pkg("encoder")
+	if pk == nil {
+		rc.Unknown("encoder", token.NoPos, "package not found")
+		return
+	}
+	info := pk.TypesInfo
+	n := 0
+	for _, fd := range p.Funcs("encoder") {
+		if fd.Body == nil {
+			continue
+		}
+		name := p.FuncName(fd)
+		k := 0
+		ast.Inspect(fd.Body, func(m ast.Node) bool {
+			loop, ok := m.(*ast.ForStmt)
+			if !ok || loop.Cond == nil || loop.Init != nil || loop.Post != nil {
+				return true
+			}
+			// the condition compares x.Op with OpStructHead or OpStructField
+			cmpHead, flag := false, false
+			ast.Inspect(loop.Cond, func(c ast.Node) bool {
+				switch x := c.(type) {
+				case *ast.BinaryExpr:
+					if x.Op == token.EQL {
+						if f := core.FieldOf(info, x.X); f != nil && f.Name() == "Op" {
+							if id, ok := core.Unparen(x.Y).(*ast.Ident); ok && (id.Name == "OpStructHead" || id.Name == "OpStructField") {
+								cmpHead = true
+							}
+						}
+					}
+				case *ast.Ident:
+					if x.Name == "AnonymousKeyFlags" {
+						if _, isConst := core.ObjOf(info, x).(*types.Const); isConst {
+							flag = true
+						}
+					}
+				}
+				return true
+			})
+			if !cmpHead {
+				return true
+			}
+			// the body advances along Next
+			adv := false
+			for _, st := range loop.Body.List {
+				if as, ok := st.(*ast.AssignStmt); ok && len(as.Lhs) == 1 && len(as.Rhs) == 1 {
+					if f := core.FieldOf(info, as.Rhs[0]); f != nil && f.Name() == "Next" {
+						adv = true
+					}
+				}
+			}
+			if !adv {
+				return true
+			}
+			k++
+			n++
+			rc.Touch(name)
+			rc.Check(flag, fmt.Sprintf("%s/head-skipping-loop#%d embedded-heads-only", name, k), loop.Pos(), "the loop steps over head operations to reach the first member of an embedded struct: its condition has to test AnonymousKeyFlags, or it also steps into a first member that holds a struct under its own name and the outer struct's omitted member keeps a nil NextField (nil dereference in the interpreter)")
+			return true
+		})
+	}
+	if n < 2 {
+		rc.Unknown("encoder/head-skipping-loops", token.NoPos, "found %d loops that step over OpStructHead/OpStructField along Next (confirmed: 2)", n)
+	}
+}
+
+// ---- C08.R26 a range shortcut in an operation conversion leaves out no operation it would convert ----
+
+// The conversions between operation variants (HeadToPtrHead, PtrHeadToHead, FieldToEnd, …) decide by the name of the
+// operation: they look for a part of it (strings.Index(t.String(), "PtrHead")) and return the neighbour whose name
+// matches. A shortcut in front (`if t < OpA || t >= OpB { return t }`) relies on the order of the generated
+// constants, and is right only if no operation in the range it returns early for has the name part the function
+// looks for. The condition is evaluated for every operation value, and the names are read from opTypeStrings: an
+// operation that is returned unchanged by the shortcut although its name holds the part is reported (with an
+// exclusive bound the last pointer head, OpStructPtrHeadOmitEmpty, stays a pointer head in the body a recursive
+// reference jumps to: it dereferences the struct's first word).
+func c08r26(rc *core.RC) {
+	p := rc.P
+	pk := p.Pkg("encoder")
+	if pk == nil {
+		rc.Unknown("encoder", token.NoPos, "package not found")
+		return
+	}
+	info := pk.TypesInfo
+	// the names, by value
+	var names []string
+	for _, f := range pk.Syntax {
+		ast.Inspect(f, func(m ast.Node) bool {
+			vs, ok := m.(*ast.ValueSpec)
+			if !ok || len(vs.Names) != 1 || vs.Names[0].Name != "opTypeStrings" || len(vs.Values) != 1 {
+				return true
+			}
+			if cl, ok := vs.Values[0].(*ast.CompositeLit); ok {
+				for _, e := range cl.Elts {
+					if tv, has := info.Types[e]; has && tv.Value != nil && tv.Value.Kind() == constant.String {
+						names = append(names, constant.StringVal(tv.Value))
+					}
+				}
+			}
+			return true
+		})
+	}
+	if len(names) < 300 {
+		rc.Unknown("encoder/opTypeStrings", token.NoPos, "the table of operation names was not found (%d entries)", len(names))
+		return
+	}
+	n := 0
+	for _, fd := range p.Funcs("encoder") {
+		if fd.Body == nil || fd.Recv == nil || len(fd.Recv.List) != 1 || len(fd.Recv.List[0].Names) != 1 {
+			continue
+		}
+		fn, _ := info.Defs[fd.Name].(*types.Func)
+		if fn == nil {
+			continue
+		}
+		sig := fn.Type().(*types.Signature)
+		if !strings.HasSuffix(sig.Recv().Type().String(), "encoder.OpType") || sig.Results().Len() != 1 || !strings.HasSuffix(sig.Results().At(0).Type().String(), "encoder.OpType") {
+			continue
+		}
+		recv := info.Defs[fd.Recv.List[0].Names[0]]
+		name := p.FuncName(fd)
+		// the name part the function looks for
+		needle := ""
+		ast.Inspect(fd.Body, func(m ast.Node) bool {
+			c, ok := m.(*ast.CallExpr)
+			if !ok || needle != "" || len(c.Args) != 2 {
+				return true
+			}
+			cn := core.CalleeName(info, c)
+			if cn != "strings.Index" && cn != "strings.Contains" {
+				return true
+			}
+			if tv, has := info.Types[c.Args[1]]; has && tv.Value != nil && tv.Value.Kind() == constant.String {
+				needle = constant.StringVal(tv.Value)
+			}
+			return true
+		})
+		if needle == "" {
+			continue
+		}
+		n++
+		rc.Touch(name)
+		key := name + "/range-shortcut-leaves-out-no-operation"
+		bad, undecided := "", ""
+		guards := 0
+		for _, st := range fd.Body.List {
+			ifs, ok := st.(*ast.IfStmt)
+			if !ok || ifs.Init != nil || len(ifs.Body.List) != 1 {
+				continue
+			}
+			ret, ok := ifs.Body.List[0].(*ast.ReturnStmt)
+			if !ok || len(ret.Results) != 1 || core.ObjOf(info, ret.Results[0]) != recv {
+				continue
+			}
+			// an ordering comparison on the receiver
+			ordered := false
+			ast.Inspect(ifs.Cond, func(m ast.Node) bool {
+				if be, ok := m.(*ast.BinaryExpr); ok {
+					switch be.Op {
+					case token.LSS, token.LEQ, token.GTR, token.GEQ:
+						if core.ObjOf(info, be.X) == recv || core.ObjOf(info, be.Y) == recv {
+							ordered = true
+						}
+					}
+				}
+				return true
+			})
+			if !ordered {
+				continue
+			}
+			guards++
+			for v := range names {
+				bp := &core.BytePred{P: p}
+				taken, ok := bp.EvalBool(info, ifs.Cond, core.Bind(recv, int64(v)))
+				if !ok {
+					undecided = core.Src(p.Fset, ifs.Cond)
+					break
+				}
+				if taken && strings.Contains(names[v], needle) && bad == "" {
+					bad = fmt.Sprintf("Op%s (%d)", names[v], v)
+				}
+			}
+		}
+		switch {
+		case undecided != "":
+			rc.Unknown(key, fd.Pos(), "the shortcut `%s` could not be evaluated for every operation value", undecided)
+		case bad != "":
+			rc.Bad(key, fd.Pos(), "the range shortcut in front of the name search returns %s unchanged although its name holds %q, the part this conversion looks for: that operation is never converted (the body a recursive reference jumps to keeps a pointer head and dereferences the struct's first word)", bad, needle)
+		case guards == 0:
+			rc.OK(key, fd.Pos(), "decides by the operation's name alone (looks for %q): no shortcut on the order of the constants", needle)
+		default:
+			rc.OK(key, fd.Pos(), "%d range shortcut(s), evaluated for all %d operation values: none returns early for an operation whose name holds %q", guards, len(names), needle)
+		}
+	}
+	if n < 4 {
+		rc.Unknown("encoder/operation-conversions", token.NoPos, "found %d conversion methods of OpType that search the operation's name (confirmed: 5)", n)
+	}
+}
